@@ -11,13 +11,14 @@ MCInit == Init /\ hist = <<>> /\ steps = 0
 \* r: what the step must show on the real engine (the writer's position after its stall check);
 \* chk: the writers that stand before their stall (re-)check after the step (a signal has woken them)
 Step(name, w) ==
-  /\ hist' = Append(hist, [a |-> name, w |-> w, r |-> IF name = "Check" THEN wpc'[w] ELSE "-",
+  /\ hist' = Append(hist, [a |-> name, w |-> w, r |-> IF name \in {"Check", "Await"} THEN wpc'[w] ELSE "-",
                             chk |-> {x \in Writers : wpc'[x] = "check"}])
   /\ steps' = steps + 1
 
 MCNext ==
   \/ \E w \in Writers : Begin(w) /\ Step("Begin", w)
   \/ \E w \in Writers : Check(w) /\ Step("Check", w)
+  \/ \E w \in Writers : Await(w) /\ Step("Await", w)
   \/ \E w \in Writers : Write(w) /\ Step("Write", w)
   \/ (FNotified /\ Step("FNotified", "-"))
   \/ (LNotified /\ Step("LNotified", "-"))
